@@ -324,7 +324,7 @@ func (f *File) seekWithoutLocking(offset int64, whence int) (int64, error) {
 	case io.SeekEnd:
 		dst = f.info.Size() + offset
 	default:
-		return -1, config.ErrNotImplemented
+		return 0, config.ErrNotImplemented
 	}
 
 	if f.readOpReader == nil || f.readOpWriter == nil || dst < int64(f.readOpReader.BytesRead) { // We have to re-open as we can't seek backwards
@@ -377,12 +377,12 @@ func (f *File) seekWithoutLocking(offset int64, whence int) (int64, error) {
 		case io.SeekEnd:
 			return int64(f.info.Size()) + offset, nil
 		default:
-			return -1, config.ErrNotImplemented
+			return 0, config.ErrNotImplemented
 		}
 	}
 
 	if err != nil {
-		return -1, err
+		return 0, err
 	}
 
 	return dst, nil
@@ -507,7 +507,7 @@ func (f *File) Read(p []byte) (n int, err error) {
 	})
 
 	if !f.flags.Read {
-		return -1, os.ErrPermission
+		return 0, os.ErrPermission
 	}
 
 	if len(p) <= 0 {
@@ -518,7 +518,7 @@ func (f *File) Read(p []byte) (n int, err error) {
 	defer f.ioLock.Unlock()
 
 	if f.info.IsDir() {
-		return -1, config.ErrIsDirectory
+		return 0, config.ErrIsDirectory
 	}
 
 	if f.writeBuf != nil {
@@ -569,7 +569,7 @@ func (f *File) Read(p []byte) (n int, err error) {
 	}
 
 	if err != nil {
-		return -1, err
+		return 0, err
 	}
 
 	return copy(p, w.Bytes()), nil
@@ -583,7 +583,7 @@ func (f *File) ReadAt(p []byte, off int64) (n int, err error) {
 	})
 
 	if !f.flags.Read {
-		return -1, os.ErrPermission
+		return 0, os.ErrPermission
 	}
 
 	if len(p) <= 0 {
@@ -595,11 +595,11 @@ func (f *File) ReadAt(p []byte, off int64) (n int, err error) {
 	f.ioLock.Unlock()
 
 	if isDir {
-		return -1, config.ErrIsDirectory
+		return 0, config.ErrIsDirectory
 	}
 
 	if _, err := f.Seek(off, io.SeekStart); err != nil {
-		return -1, err
+		return 0, err
 	}
 
 	return f.Read(p)
@@ -630,20 +630,20 @@ func (f *File) Write(p []byte) (n int, err error) {
 	defer f.ioLock.Unlock()
 
 	if f.info.IsDir() {
-		return -1, config.ErrIsDirectory
+		return 0, config.ErrIsDirectory
 	}
 
 	if !f.flags.Write {
-		return -1, os.ErrPermission
+		return 0, os.ErrPermission
 	}
 
 	if err := f.enterWriteMode(); err != nil {
-		return -1, err
+		return 0, err
 	}
 
 	n, err = f.writeBuf.Write(p)
 	if err != nil {
-		return -1, err
+		return 0, err
 	}
 
 	return n, nil
@@ -660,19 +660,19 @@ func (f *File) WriteAt(p []byte, off int64) (n int, err error) {
 	defer f.ioLock.Unlock()
 
 	if f.info.IsDir() {
-		return -1, config.ErrIsDirectory
+		return 0, config.ErrIsDirectory
 	}
 
 	if !f.flags.Write {
-		return -1, os.ErrPermission
+		return 0, os.ErrPermission
 	}
 
 	if err := f.enterWriteMode(); err != nil {
-		return -1, err
+		return 0, err
 	}
 
 	if _, err := f.seekWithoutLocking(off, io.SeekStart); err != nil {
-		return -1, err
+		return 0, err
 	}
 
 	return f.writeBuf.Write(p)
@@ -688,15 +688,15 @@ func (f *File) WriteString(s string) (ret int, err error) {
 	defer f.ioLock.Unlock()
 
 	if f.info.IsDir() {
-		return -1, config.ErrIsDirectory
+		return 0, config.ErrIsDirectory
 	}
 
 	if !f.flags.Write {
-		return -1, os.ErrPermission
+		return 0, os.ErrPermission
 	}
 
 	if err := f.enterWriteMode(); err != nil {
-		return -1, err
+		return 0, err
 	}
 
 	return f.writeBuf.Write([]byte(s))
